@@ -644,4 +644,190 @@ theorem decodeAll_normAll : ∀ (cs : List ArrayData) (a b : Nat) (cvs : List (L
         simp
 end
 
+
+/-! ### buffer / field-node accounting (`skip_field`, `create_array` vs `flatten`) -/
+
+/-- children part of `flatten` -/
+def chOf (x : ArrayData) : List (Nat × Nat) × List (List Nat) :=
+  match x.type with
+  | .dict _ _ _ => ([], [])
+  | _ => flattenAll x.children
+
+theorem flatten_lengths (x : ArrayData) :
+    (flatten x).1.length = 1 + (chOf x).1.length ∧
+    (flatten x).2.length = (if x.nulls.isSome then 1 else 0) + x.buffers.length + (chOf x).2.length := by
+  obtain ⟨t, len, off, nulls, bufs, cs⟩ := x
+  cases t <;> cases nulls <;> simp [flatten, chOf] <;> omega
+
+theorem hv_true (t : DType) (v : Nat) (h1 : t ≠ .null) (h2 : ∀ d f, t ≠ .union d f) (h3 : ∀ r w, t ≠ .ree r w) :
+    hasValidityBitmap t v = true := by
+  unfold hasValidityBitmap
+  split <;> cases t <;> simp_all
+
+theorem nodeOk_iff (v : Nat) (t : DType) (x : ArrayData) (nb : Nat) (h : nodeOk v t x nb = true) :
+    x.type = t ∧ x.nulls.isSome = hasValidityBitmap t v ∧ x.buffers.length = nb := by
+  simpa [nodeOk, and_assoc] using h
+
+mutual
+/-- **the writer's output for a column and the reader's consumption agree**: an array with the
+shape `write_array_data` produces for type `t` under version `v` flattens to exactly
+`consumeCount k t v` field nodes and buffers, when the reader's Union arm uses the writer's
+version split `k` and no run-end type is written below it. -/
+theorem flatten_count (k v : Nat) (hk : k = Generated.C04.HAS_VALIDITY_SPLIT_VERSION) :
+    ∀ (t : DType) (x : ArrayData), shapeOk v t x = true → (v < k → noRee t = true) →
+      (flatten x).1.length = (consumeCount k t v).1 ∧ (flatten x).2.length = (consumeCount k t v).2
+  | .null, x, h, _ => by
+    simp only [shapeOk, Bool.and_eq_true, List.isEmpty_iff] at h
+    obtain ⟨hn, hc⟩ := h
+    obtain ⟨ht, hv, hb⟩ := nodeOk_iff _ _ _ _ hn
+    have := flatten_lengths x
+    have hv' : hasValidityBitmap .null v = false := by unfold hasValidityBitmap; split <;> rfl
+    simp only [chOf, ht, hc, flattenAll, hv, hv', hb] at this
+    simp [consumeCount, this]
+  | .bool, x, h, _ => by
+    simp only [shapeOk, Bool.and_eq_true, List.isEmpty_iff] at h
+    obtain ⟨hn, hc⟩ := h
+    obtain ⟨ht, hv, hb⟩ := nodeOk_iff _ _ _ _ hn
+    have := flatten_lengths x
+    simp only [chOf, ht, hc, flattenAll, hv, hv_true .bool v (by simp) (by simp) (by simp), hb] at this
+    simp [consumeCount, this]
+  | .prim w, x, h, _ => by
+    simp only [shapeOk, Bool.and_eq_true, List.isEmpty_iff] at h
+    obtain ⟨hn, hc⟩ := h
+    obtain ⟨ht, hv, hb⟩ := nodeOk_iff _ _ _ _ hn
+    have := flatten_lengths x
+    simp only [chOf, ht, hc, flattenAll, hv, hv_true (.prim w) v (by simp) (by simp) (by simp), hb] at this
+    simp [consumeCount, this]
+  | .fsb w, x, h, _ => by
+    simp only [shapeOk, Bool.and_eq_true, List.isEmpty_iff] at h
+    obtain ⟨hn, hc⟩ := h
+    obtain ⟨ht, hv, hb⟩ := nodeOk_iff _ _ _ _ hn
+    have := flatten_lengths x
+    simp only [chOf, ht, hc, flattenAll, hv, hv_true (.fsb w) v (by simp) (by simp) (by simp), hb] at this
+    simp [consumeCount, this]
+  | .utf8 l, x, h, _ => by
+    simp only [shapeOk, Bool.and_eq_true, List.isEmpty_iff] at h
+    obtain ⟨hn, hc⟩ := h
+    obtain ⟨ht, hv, hb⟩ := nodeOk_iff _ _ _ _ hn
+    have := flatten_lengths x
+    simp only [chOf, ht, hc, flattenAll, hv, hv_true (.utf8 l) v (by simp) (by simp) (by simp), hb] at this
+    simp [consumeCount, this]
+  | .binary l, x, h, _ => by
+    simp only [shapeOk, Bool.and_eq_true, List.isEmpty_iff] at h
+    obtain ⟨hn, hc⟩ := h
+    obtain ⟨ht, hv, hb⟩ := nodeOk_iff _ _ _ _ hn
+    have := flatten_lengths x
+    simp only [chOf, ht, hc, flattenAll, hv, hv_true (.binary l) v (by simp) (by simp) (by simp), hb] at this
+    simp [consumeCount, this]
+  | .dict kw s val, x, h, _ => by
+    simp only [shapeOk] at h
+    obtain ⟨ht, hv, hb⟩ := nodeOk_iff _ _ _ _ h
+    have := flatten_lengths x
+    simp only [chOf, ht, hv, hv_true (.dict kw s val) v (by simp) (by simp) (by simp), hb] at this
+    simp [consumeCount, this]
+  | .list l item n, x, h, hr => by
+    simp only [shapeOk, Bool.and_eq_true] at h
+    obtain ⟨hn, hc⟩ := h
+    obtain ⟨ht, hv, hb⟩ := nodeOk_iff _ _ _ _ hn
+    cases hcs : x.children with
+    | nil => simp [hcs] at hc
+    | cons c rest =>
+      cases rest with
+      | cons _ _ => simp [hcs] at hc
+      | nil =>
+        simp only [hcs] at hc
+        have ih := flatten_count k v hk item c hc (fun hv => by have := hr hv; simpa [noRee] using this)
+        have := flatten_lengths x
+        simp only [chOf, ht, hcs, flattenAll, hv, hv_true (.list l item n) v (by simp) (by simp) (by simp), hb,
+          List.append_nil, ↓reduceIte] at this
+        obtain ⟨t1, t2⟩ := this
+        have ih1 := ih.1
+        have ih2 := ih.2
+        refine ⟨?_, ?_⟩ <;> simp only [consumeCount] <;> omega
+  | .fsl kk item n, x, h, hr => by
+    simp only [shapeOk, Bool.and_eq_true] at h
+    obtain ⟨hn, hc⟩ := h
+    obtain ⟨ht, hv, hb⟩ := nodeOk_iff _ _ _ _ hn
+    cases hcs : x.children with
+    | nil => simp [hcs] at hc
+    | cons c rest =>
+      cases rest with
+      | cons _ _ => simp [hcs] at hc
+      | nil =>
+        simp only [hcs] at hc
+        have ih := flatten_count k v hk item c hc (fun hv => by have := hr hv; simpa [noRee] using this)
+        have := flatten_lengths x
+        simp only [chOf, ht, hcs, flattenAll, hv, hv_true (.fsl kk item n) v (by simp) (by simp) (by simp), hb,
+          List.append_nil, ↓reduceIte] at this
+        obtain ⟨t1, t2⟩ := this
+        have ih1 := ih.1
+        have ih2 := ih.2
+        refine ⟨?_, ?_⟩ <;> simp only [consumeCount] <;> omega
+  | .struct fs, x, h, hr => by
+    simp only [shapeOk, Bool.and_eq_true] at h
+    obtain ⟨hn, hc⟩ := h
+    obtain ⟨ht, hv, hb⟩ := nodeOk_iff _ _ _ _ hn
+    have ih := flattenAll_count k v hk fs x.children hc (fun hv => by have := hr hv; simpa [noRee] using this)
+    have := flatten_lengths x
+    simp only [chOf, ht, hv, hv_true (.struct fs) v (by simp) (by simp) (by simp), hb, ↓reduceIte] at this
+    obtain ⟨t1, t2⟩ := this
+    have ih1 := ih.1
+    have ih2 := ih.2
+    refine ⟨?_, ?_⟩ <;> simp only [consumeCount] <;> omega
+  | .union dense fs, x, h, hr => by
+    simp only [shapeOk, Bool.and_eq_true] at h
+    obtain ⟨hn, hc⟩ := h
+    obtain ⟨ht, hv, hb⟩ := nodeOk_iff _ _ _ _ hn
+    have ih := flattenAll_count k v hk fs x.children hc (fun hv => by have := hr hv; simpa [noRee] using this)
+    have := flatten_lengths x
+    have hvb : hasValidityBitmap (.union dense fs) v = decide (v < k) := by
+      unfold hasValidityBitmap; rw [hk]; split <;> simp [*]
+    by_cases hvk : v < k
+    all_goals
+      simp only [chOf, ht, hv, hvb, hb, hvk, decide_true, decide_false, ↓reduceIte, Bool.false_eq_true] at this
+      obtain ⟨t1, t2⟩ := this
+      have ih1 := ih.1
+      have ih2 := ih.2
+      refine ⟨?_, ?_⟩ <;> simp only [consumeCount, hvk, ↓reduceIte] <;> cases dense <;> simp at t2 ⊢ <;> omega
+  | .ree rwd val, x, h, hr => by
+    have hvk : ¬ v < k := fun hv => by have := hr hv; simp [noRee] at this
+    simp only [shapeOk, Bool.and_eq_true] at h
+    obtain ⟨hn, hc⟩ := h
+    obtain ⟨ht, hv, hb⟩ := nodeOk_iff _ _ _ _ hn
+    cases hcs : x.children with
+    | nil => simp [hcs] at hc
+    | cons re rest =>
+      cases rest with
+      | nil => simp [hcs] at hc
+      | cons vals rest2 =>
+        cases rest2 with
+        | cons _ _ => simp [hcs] at hc
+        | nil =>
+          simp only [hcs, Bool.and_eq_true, List.isEmpty_iff] at hc
+          obtain ⟨⟨hre, hrec⟩, hvals⟩ := hc
+          obtain ⟨rt, rv, rb⟩ := nodeOk_iff _ _ _ _ hre
+          have ih := flatten_count k v hk val vals hvals (fun hv => absurd hv hvk)
+          have hre1 := flatten_lengths re
+          simp only [chOf, rt, hrec, flattenAll, rv, hv_true (.prim rwd) v (by simp) (by simp) (by simp), rb, List.length_nil, ↓reduceIte] at hre1
+          have := flatten_lengths x
+          have hvb : hasValidityBitmap (.ree rwd val) v = false := by
+            unfold hasValidityBitmap; rw [← hk]; simp [hvk]
+          simp only [chOf, ht, hcs, flattenAll, hv, hvb, hb, List.append_nil, List.length_append, List.length_nil, Bool.false_eq_true, ↓reduceIte] at this
+          obtain ⟨r1, r2⟩ := hre1
+          obtain ⟨t1, t2⟩ := this
+          have ih1 := ih.1
+          have ih2 := ih.2
+          refine ⟨?_, ?_⟩ <;> simp only [consumeCount] <;> omega
+theorem flattenAll_count (k v : Nat) (hk : k = Generated.C04.HAS_VALIDITY_SPLIT_VERSION) :
+    ∀ (fs : Fields) (cs : List ArrayData), shapeFields v fs cs = true → (v < k → noRee.noReeF fs = true) →
+      (flattenAll cs).1.length = (consumeFields k fs v).1 ∧ (flattenAll cs).2.length = (consumeFields k fs v).2
+  | .nil, [], _, _ => by simp [flattenAll, consumeFields]
+  | .nil, _ :: _, h, _ => by simp [shapeFields] at h
+  | .cons _ _ _ _, [], h, _ => by simp [shapeFields] at h
+  | .cons _ t _ r, c :: cs, h, hr => by
+    simp only [shapeFields, Bool.and_eq_true] at h
+    have i1 := flatten_count k v hk t c h.1 (fun hv => by have := hr hv; simp [noRee.noReeF] at this; exact this.1)
+    have i2 := flattenAll_count k v hk r cs h.2 (fun hv => by have := hr hv; simp [noRee.noReeF] at this; exact this.2)
+    simp only [flattenAll, consumeFields, List.length_append, ← i1.1, ← i1.2, ← i2.1, ← i2.2, and_self]
+end
 end ArrowModel.C04
